@@ -134,7 +134,7 @@ def check(run):
             for j, v in enumerate(s.variants):
                 v.disabled = (j == pos)
             specs.append(s)
-    units = [shards.Unit("u_" + s.name.lower(), glue(s), meta={"enum_src": s.render()}, sig=s.signature()) for s in specs]
+    units = [shards.Unit("u_" + s.name.lower(), glue(s), meta={"enum_src": s.render(), "bare_src": s.render_bare()}, sig=s.signature()) for s in specs]
     run.rule = RULE
     samples = standard_flow(run, units, deps["std"], vmon, profiles=("debug",), tag="c13")
     if thorough:
@@ -146,7 +146,7 @@ def check(run):
             j += 1
             ms = build(r2, "M%d" % j, generics=[None, "a", "T"][len(mu)])
             if ms is not None and len(ms.variants) <= 4:
-                mu.append(shards.Unit("u_m%d" % j, glue(ms), meta={"enum_src": ms.render()}, sig="miri"))
+                mu.append(shards.Unit("u_m%d" % j, glue(ms), meta={"enum_src": ms.render(), "bare_src": ms.render_bare()}, sig="miri"))
         miri.run_miri(run, mu)
     pick_samples(run, samples, {u.name: u for u in units})
     run.extra["programs"] = len(units)
